@@ -38,8 +38,15 @@ def msg(e):
 def planted(rng):
     bad = rng.choice(BAD)
     reach = rng.choice([True, False])
-    kind = rng.choice(['condition', 'repeat', 'switch', 'define-unused', 'nested', 'two-sites', 'two-sites', 'switch-expr', 'dict-attr', 'attr-then-dict'])
-    if kind == 'condition':
+    kind = rng.choice(['condition', 'repeat', 'switch', 'define-unused', 'nested', 'two-sites', 'two-sites', 'switch-expr', 'dict-attr', 'attr-then-dict', 'literal-condition', 'literal-condition'])
+    if kind == 'literal-condition':
+        # the guard is a literal: the site is unreachable (or reachable) whatever the bindings — it is compiled all the same
+        lit, reach = rng.choice([('False', False), ('0', False), ('None', False), ("''", False), ('python: 0', False), ('string:', False), ('exists: nope', False),
+                                 ('True', True), ('1', True), ("'y'", True), ('python: 1', True), ('string:y', True)])
+        inner = rng.choice(['${%s}' % bad, '<i tal:content="%s">x</i>' % bad, '<i tal:attributes="title %s">x</i>' % bad])
+        src = '<div><p tal:condition="%s">%s</p>tail</div>' % (lit, inner)
+        vars_ = []
+    elif kind == 'condition':
         src = '<div><p tal:condition="flag">${%s}</p>tail</div>' % bad
         vars_ = [['flag', reach]]
     elif kind == 'repeat':
